@@ -49,12 +49,13 @@ def gen_history(rng, maxlen=12, prop="C16", restarts=0):
             c.append(rng.choice(["a9", "n3"]))
         return rng.choice(c)
 
-    w = {"A": 24, "P": 22, "L": 16, "F": 9, "K": 6, "T": 6, "D": 8, "C": 3, "W": 2, "I": 1, "S": 1, "X": 2, "U": 2}
+    if rng.random() < 0.08:
+        return gen_drop_scenario(rng, maxlen)
+    w = {"A": 24, "P": 22, "L": 16, "F": 9, "K": 6, "T": 6, "D": 8, "C": 3, "W": 2, "I": 1, "S": 1, "X": 2, "U": 2, "Y": 1}
     if prop == "C17":
         w.update({"W": 7, "X": 5, "F": 12, "K": 8, "T": 8, "S": 2, "U": 5})
     if prop == "C18":
-        # rpc_qdrop and the watchdog are outside C16/C17's alphabets; C18 needs them to reach "the newest job has
-        # left id2job before the save"
+        # C18 needs rpc_qdrop and the watchdog to reach "the newest job has left id2job before the save"
         w.update({"W": 5, "F": 12, "T": 7, "U": 4, "Y": 5, "G": 4})
     kinds = list(w)
     weights = [w[k] for k in kinds]
@@ -114,6 +115,45 @@ def gen_history(rng, maxlen=12, prop="C16", restarts=0):
     return ops
 
 
+def gen_drop_scenario(rng, maxlen=12):
+    """rpc_qdrop + waits (jobs.py waitjobs, b6f8314): several clients wait on one job that is dropped; the id is killed
+    and re-added while the waiters are still blocked, or forgotten by the watchdog; the waits are released by a finish,
+    a kill or a timeout; noise ops in between.  Model and real code must agree and the monitors must stay silent:
+    every waiter gets the finished job, the re-added job stays registered under its id."""
+    named = rng.random() < 0.7
+    name = rng.choice([0, 1]) if named else "-"
+    jid = "n%d" % name if named else "a1"
+    ch = rng.choice([0, 1])
+    core = ["A %d %d %s %s" % (ch, rng.choice([0, 1]), name, rng.choice(["-", "5"]))]
+    waiters = rng.sample([1, 2, 3, 5, 6], rng.choice([1, 2, 2, 3]))
+    mid = ["W %d %s" % (c, jid) for c in waiters] + ["Y %s" % jid]
+    if rng.random() < 0.3:
+        mid.append("P %d %s" % (rng.choice([1, 2, 3, 4]), rng.choice(["-", str(ch)])))
+    rng.shuffle(mid)
+    core += mid
+    r = rng.random()
+    if named and r < 0.45:
+        core += ["K 7 %s" % jid, "A %d %d %s -" % (rng.choice([0, 1]), rng.choice([0, 1]), name)]     # kill + re-add
+    elif r < 0.6:
+        core += ["K 7 %s" % jid]
+    elif r < 0.8:
+        core += ["F 7 %s %s %s" % (jid, rng.choice(["-", "7"]), rng.choice(["-", "3", "0"]))]
+    else:
+        core += [rng.choice(["T 6", "T 130", "U 4000"])]
+    tail = ["L"]
+    if rng.random() < 0.5:
+        tail += [rng.choice(["W %d %s" % (rng.choice([5, 6, 8]), jid), "I %s" % jid, "G", "X", "P 4 -", "Y %s" % jid,
+                             "K 7 %s" % jid, "F 7 %s 8 -" % jid, "D %d" % rng.choice(waiters)]), "L"]
+    ops = core + tail
+    noise = ["L", "D %d" % rng.choice(waiters), "G", "U 4000", "T 6", "P %d -" % rng.choice([1, 2, 3, 4]), "A %d 0 - -" % ch,
+             "Y %s" % jid, "W %d %s" % (rng.choice([5, 6, 8]), jid), "C 1", "X", "I %s" % jid]
+    for _ in range(rng.choice([0, 0, 1, 2, 3])):
+        if len(ops) >= maxlen:
+            break
+        ops.insert(rng.randint(1, len(ops)), rng.choice(noise))
+    return ops
+
+
 def canon_out(out):
     """Release order among clients waiting on the same job within one event-loop turn is not
     observable (each released client just returns): sort runs of `released` items."""
@@ -121,17 +161,11 @@ def canon_out(out):
     run = []
 
     def flush():
-        # clients released from a DROPPED job: the first one deletes the id, the others get a KeyError; which client is
-        # first is the (unobservable, see above) link order of the event, so only the multiset is compared
-        if any(o[0] == "keyerr" for o in run):
-            for o in run:
-                if o[0] == "released":
-                    o[1] = -1
-        res.extend(sorted(run, key=lambda x: (x[0], x[2][0], x[1]) if x[0] == "released" else (x[0], 0, 0)))
+        res.extend(sorted(run, key=lambda x: (x[2][0], x[1])))
         del run[:]
 
     for o in out:
-        if o and (o[0] == "released" or (o[0] == "keyerr" and run)):
+        if o and o[0] == "released":
             run.append(list(o))
         else:
             flush()
